@@ -18,6 +18,7 @@ import (
 	"time"
 
 	"go.mongodb.org/mongo-driver/mongo"
+	"go.mongodb.org/mongo-driver/mongo/options"
 
 	"github.com/256dpi/lungo"
 	"github.com/256dpi/lungo/verifshim/vos"
@@ -107,7 +108,8 @@ func c05Calls() map[string]c05Call {
 		return err
 	})
 	add("idx", func(w *world.World) error {
-		_, err := w.C("d", "c").Indexes().CreateOne(w.Ctx, mongo.IndexModel{Keys: bD("pad", int32(1))})
+		// (the smallest expiry there is: expireAfterSeconds 0 is kept as one nanosecond; pad holds no dates)
+		_, err := w.C("d", "c").Indexes().CreateOne(w.Ctx, mongo.IndexModel{Keys: bD("pad", int32(1)), Options: options.Index().SetExpireAfterSeconds(0).SetPartialFilterExpression(bD())})
 		return err
 	})
 	add("ins3other", func(w *world.World) error {
